@@ -199,11 +199,29 @@ def reach_only_through(mapper_name, cls_name, path):
             def rec(self, expr, *a, **k):
                 seen.append(expr)
                 return super().rec(expr, *a, **k)
+
+            # the base mappers are abstract in their leaves (no
+            # map_placeholder/map_size_param in CombineMapper, ...): a node
+            # kind the mapper has no method for ends the descent here; it is
+            # not a failure to reach the *direct* child looked for
+            def handle_unsupported_array(self, expr, *a, **k):
+                return 0 if mapper_name == "TagCountMapper" else None
+
+            if mapper_name == "CachedWalkMapper":
+                # (abstract in the base class)
+                def get_cache_key(self, expr, *a, **k):
+                    return id(expr)
+
+                def get_function_definition_cache_key(self, expr, *a, **k):
+                    return id(expr)
         try:
             m = ml._factories().get(mapper_name, lambda C: C())(Rec)
             if mapper_name == "CombineMapper":
                 m.combine = lambda *a: None
-            m(node)
+            res = m(node)
+            if mapper_name == "ListOfDirectPredecessorsGetter":
+                # no recursion: the returned list *is* what it reaches
+                seen.extend(res or [])
         except Exception as e:  # noqa: BLE001
             return (f"{mapper_name} on a real {cls_name} node raised "
                     f"{type(e).__name__}: {e}")
